@@ -431,6 +431,18 @@ def _cfg_getboolean(eng, e, st, args, kw):
     return ZV(TBool, s_tobool(_cfg_get_raw(eng, e, st, args)))
 
 
+def _cfg_remove(eng, e, st, args, kw):
+    """remove_option(section, option): the option is absent afterwards, every other option is untouched; returns whether it existed"""
+    obj = args[0]
+    _use(eng, 'ConfigParser.set/get/getfloat/getint/has_option/remove_option behave as a map (section, option) -> str')
+    opts = obj.fields['opts']
+    k = _cfg_key(eng, args[1:])
+    existed = CONFIG_OPTS.has(opts.term, k)
+    new = ZV(CONFIG_OPTS, CONFIG_OPTS.mk(z3.Store(CONFIG_OPTS.has_map(opts.term), k, z3.BoolVal(False)), CONFIG_OPTS.get_map(opts.term)))
+    eng.assign(e.func.value, obj.with_field('opts', new), st)
+    return ZV(TBool, existed)
+
+
 def _cfg_has(eng, e, st, args, kw):
     obj = args[0]
     return ZV(TBool, CONFIG_OPTS.has(obj.fields['opts'].term, _cfg_key(eng, args[1:])))
@@ -476,6 +488,7 @@ def install_config(eng):
     b[CONFIG_CLS + '.__getitem__'] = _cfg_getitem
     b[SECTION_CLS + '.__getitem__'] = _section_getitem
     b[CONFIG_CLS + '.set'] = _cfg_set
+    b[CONFIG_CLS + '.remove_option'] = _cfg_remove
     b[CONFIG_CLS + '.get'] = _cfg_get
     b[CONFIG_CLS + '.getfloat'] = _cfg_getfloat
     b[CONFIG_CLS + '.getint'] = _cfg_getint
